@@ -1,4 +1,46 @@
-From ZV Require Import Base.Bytes DBus.Spec.
-Theorem C04_placeholder : padn 5 4 = 3%N.
-Proof. reflexivity. Qed.
-Print Assumptions C04_placeholder.
+(* Properties/C04.v — decoding untrusted bytes never crashes (D-Bus format).
+   In DBus/De.v every slice, index, subtraction, unwrap and unreachable! on the decode path of
+   zvariant::dbus::Deserializer + the dynamic Value visitors is an explicit outcome; these theorems say which
+   of them are reachable.  Statements only. *)
+From ZV Require Import Base.Bytes Base.Res Base.Sig Base.SigParse DBus.Val DBus.Spec DBus.Ser DBus.De DBus.DeNoPanic DBus.DeFacts.
+Local Open Scope N_scope.
+
+(* for every fuel, every decoder state (any bytes, cursor, offset, byte order, depth counters, fd table):
+   without the gvariant feature and with a maybe-free signature the decoder returns a value or an error *)
+Theorem C04_dbus_nopanic_partial : forall (fuel : nat) (st : dstate),
+  c_gv (t_cfg st) = false -> maybe_free (t_sig st) = true -> is_panic (de_any fuel st) = false.
+Proof. exact de_any_nopanic. Qed.
+Print Assumptions C04_dbus_nopanic_partial.
+
+(* Data::deserialize::<Value>() on arbitrary bytes *)
+Theorem C04_value_nopanic_partial : forall c e pos (b : bytes) (fds : list N),
+  c_gv c = false -> is_panic (de_value_top c e pos b fds) = false.
+Proof. exact de_value_top_nopanic. Qed.
+Print Assumptions C04_value_nopanic_partial.
+
+(* Data::deserialize_for_dynamic_signature::<Structure>(sig) on arbitrary bytes *)
+Theorem C04_body_nopanic_partial : forall c e pos (g : sig) (b : bytes) (fds : list N),
+  c_gv c = false -> maybe_free g = true -> is_panic (de_struct_top c e pos g b fds) = false.
+Proof. exact de_struct_top_nopanic. Qed.
+Print Assumptions C04_body_nopanic_partial.
+
+(* signatures parsed from hostile input never contain a maybe unless the gvariant feature is compiled in *)
+Theorem C04_parsed_signatures_maybe_free : forall (s : bytes) (g : sig), parse_sig false s = Some g -> maybe_free g = true.
+Proof. exact parse_sig_maybe_free. Qed.
+Print Assumptions C04_parsed_signatures_maybe_free.
+
+(* a successful decode moves only the cursor and the depth counters: buffer, context, signature and the
+   descriptor table of the deserializer are what they were (so nothing outside the input is read) *)
+Theorem C04_frame : forall (fuel : nat) (st st' : dstate) (v : dval),
+  c_gv (t_cfg st) = false -> maybe_free (t_sig st) = true -> de_any fuel st = Ok (v, st') ->
+  t_cfg st' = t_cfg st /\ t_e st' = t_e st /\ t_pos0 st' = t_pos0 st /\ t_bytes st' = t_bytes st /\
+  t_sig st' = t_sig st /\ t_fds st' = t_fds st.
+Proof.
+  intros fuel st st' v H1 H2 H3. pose proof (de_any_Q fuel st (conj H1 H2)) as H. rewrite H3 in H. exact H.
+Qed.
+Print Assumptions C04_frame.
+
+(* the full statement is false of the faithful model: known finding maybe_dbus_align *)
+Theorem C04_maybe_refuted : exists c e pos g b fds, c_gv c = true /\ de_struct_top c e pos g b fds = Panic PUnreachable.
+Proof. exact maybe_panics. Qed.
+Print Assumptions C04_maybe_refuted.
